@@ -54,8 +54,8 @@ CHECKS = {
     "C07": vsim("TestVerif_C07", ["client-semantics", "exactly-once"],
         "cases = generated client histories (UpdateFSM/ReadFSM/DirtyReadFSM/BarrierFSM to arbitrary nodes, bursts, FIFO per node) under leader changes, partitions, transfers, membership changes, restarts; non-trivial: >=1 task failed definitively or ambiguously, >=2 leaders elected, >=3 successful updates; distinct by trace hash",
         2000, 20000),
-    "C08": vsim("TestVerif_C08", ["config-safety", "leader-unique", "leader-complete", "commit-stable"],
-        "cases = generated membership request sequences (add non-voter +-promote, promote, demote, remove, force-remove, several per request, stale configs) interleaved with elections, transfers, faults; non-trivial: >=2 configuration entries appended by leaders and >=2 leaders elected; distinct by trace hash",
+    "C08": vsim("TestVerif_C08", ["config-safety", "info-config", "leader-unique", "leader-complete", "commit-stable"],
+        "cases = generated membership request sequences (add non-voter +-promote, promote, demote, remove, force-remove, several per request, stale configs) interleaved with elections, transfers, faults, incl. template cfgrevert; the configuration a node has adopted (its status report) must be the newest configuration entry of its own log/snapshot at every observation (adoption on append, revert on truncation, rebuild on restart); non-trivial: >=2 configuration entries appended by leaders and >=2 leaders elected; distinct by trace hash",
         2000, 20000),
     "C09": vsim("TestVerif_C09", ["fsm-agreement", "snapshot-content", "restart", "converge", "no-crash", "log-read"],
         "cases = generated schedules with long logs over 1 KiB segments: snapshots on leaders and followers (also with the snapshot goroutine or a replication goroutine parked at a hook), compaction, followers lagging/partitioned/restarting, installs, followed by a closing phase (release holds, heal, restart every node, 40 s virtual time, probe update, 10 s). Oracles: recording-FSM content == committed update prefix at its applied index after every step (also right after Restore); every snapshot file's content == committed prefix at its index and index <= highest commit index; every restart succeeds; convergence (one leader, own-term commit, every running member caught up); no crash/fault in any node. non-trivial: a compaction happened or a snapshot was installed, and the closing phase ran; distinct by trace hash",
